@@ -54,6 +54,35 @@ def makers(prog, eff):
                   eff.summ[f.name]["allocates"] and f.name not in ("cbor_load",))
 
 
+def check_makers_define_item(chk, rule, prog, eff, floor=20):
+    """Every routine that allocates and returns a new item leaves no field of the item header to the allocator: type,
+    reference count and the data pointer are all written on every successful path (the release routine reads all three -
+    it frees `data` unconditionally)."""
+    n = 0
+    for name in makers(prog, eff):
+        g = prog.fn(name)
+        if g.back_edges() or name in eff.transitive_callees(name):
+            continue        # cbor_copy and friends: composed of the leaf makers judged here
+        try:
+            states = tables.result_states(prog, eff, name)
+        except P.PathCapExceeded:
+            continue
+        for k, rs in enumerate(states):
+            d = rs["desc"]
+            if d is None:
+                continue
+            r = rs["item"]
+            if not (isinstance(r, tuple) and r[0] == "call" and any(e.kind == "call" and e.res == r and e.ckind == "alloc" for e in rs["path"].events)):
+                continue    # hands on an item made by another maker
+            n += 1
+            missing = [fld for fld in ("type", "refcount", "data") if d.get(fld) is None]
+            chk.ob(rule, "%s path %d: type, reference count and data pointer of the new item are all written" % (name, k), not missing,
+                   "%s:%d" % (g.file, g.line), fn=name, key="makerinit:%s:%d" % (name, k),
+                   detail="" if not missing else "%s left as the allocator returned it; cbor_decref reads it (and hands `data` to the installed free)"
+                   % ", ".join(missing), path=rs["path"].block_lines() if missing else None)
+    chk.floor(rule, "fresh items returned by makers", n, floor)
+
+
 def check_total(chk, rule, prog, eff, cache, CS, floor=10, with_makers=True):
     in_context = set()
     for g_ in prog.lib_funcs():
@@ -316,6 +345,23 @@ def run(ctx, chk):
                 det.append("width of the copy is %s, source width is %d" % (d["meta0"], w[0]))
             seen_leaf.add((t0 == T["CBOR_TYPE_FLOAT_CTRL"], w[0]))
             is_ctrl = t0 == T["CBOR_TYPE_FLOAT_CTRL"] and w[0] == FW["CBOR_FLOAT_0"]
+            if is_ctrl:
+                # a simple value: the copy carries the source's own number, whatever it is (not only the four the decoder makes)
+                ctrl_off = off_["metadata"] + prog.field_offset("_cbor_float_ctrl_metadata", "ctrl")
+                cv = strip(d["ctrl"]) if d["ctrl"] is not None else None
+                src_terms = [e.res for e in pa.events if e.kind == "load" and ptr_key(e.args[0]) == (SRC, ctrl_off)]
+                okc = False
+                if cv is not None:
+                    if cv in src_terms:
+                        okc = True
+                    elif isinstance(cv, tuple) and cv[0] == "call":
+                        ev = [e for e in pa.events if e.kind == "call" and e.res == cv]
+                        okc = bool(ev) and ev[0].args and ev[0].args[0] == SRC and not eff.summ.get(ev[0].callee, {}).get("writes") and \
+                            ev[0].callee == "cbor_ctrl_value"
+                    elif is_const(cv):
+                        okc = any(pa.st.eqc.get(t_) == cv[1] for t_ in src_terms)
+                if not okc:
+                    det.append("simple value of the copy is %s, not the value read from the source" % (DR.fmt_term(d["ctrl"]) if d["ctrl"] is not None else "not set"))
             if not is_ctrl:
                 if d["data_kind"] != "interior":
                     det.append("payload pointer of the copy is %s (must point into the copy's own block)" % d["data_kind"])
